@@ -1660,3 +1660,19 @@ class service_runner_init:
                 "and-no-queued-payloads": _empty_map(c, mr._runner_queues),
                 "and-is-not-running": c.Not(flag(mr.running, "isset")),
                 "accepts-with-the-given-delay": self.accept_delay.same(accept_delay)}
+
+
+@contract(RUN + "base_runner:BaseRunner.__init__#as-inherited-by-ThreadRunner", props=["C12", "C02"], body_key=RUN + "base_runner:BaseRunner.__init__")
+class base_runner_init:
+    """a new runner works on the loop it was given and is STOPPED (its own new event, set) until run() clears that: stop() on a runner that
+    never ran is the no-op of BaseRunner.stop's contract"""
+    new_object = "self"
+    params = dict(self=ThreadR, asyncio_loop=ALoop)       # (BaseRunner is abstract: verified on the receiver class of one of the three runners)
+    has_events = True          # the one event: _stopped.set()
+
+    def writes(c, self, asyncio_loop):
+        return [(self, f) for f in ("asyncio_loop", "_logger", "_stopped")] + [("all", "isset", lambda x: x >= c.ctx.alloc0)]
+
+    def ensures(c, self, asyncio_loop):
+        return {"works-on-the-given-loop": self.asyncio_loop.t == asyncio_loop.t,
+                "starts-out-stopped-with-an-event-of-its-own": c.And(Z.Val.id(self._stopped.t) >= c.ctx.alloc0, flag(self._stopped, "isset"))}
